@@ -50,8 +50,14 @@ const afterHangBound = 1 * time.Second
 // Skipped scenarios are reported as such and never count as passed.
 const maxHungScenarios = 1
 
-// scnBound is the watchdog of one whole scenario inside the child.
-const scnBound = 180 * time.Second
+// scnBound is the watchdog of one whole scenario inside the child (a scenario takes some
+// milliseconds; one whose calls hang takes opBound plus afterHangBound per remaining call).
+const scnBound = 100 * time.Second
+
+// maxCrashes: after this many scenarios of one batch have killed their child process (panic in a
+// goroutine of the implementation, fatal error, watchdog) the rest of the batch is skipped; each
+// of them is a failing input already.  A watchdog kill weighs as much as ten panics.
+const maxCrashes = 20
 
 type scenario struct {
 	X *xferScn   `json:"x,omitempty"`
@@ -194,8 +200,14 @@ func runChunk(c *hx.Ctx, tag string, scns []scenario, res []scnResult) {
 		c.HarnessError("write %s: %v", in, err)
 		return
 	}
-	start := 0
+	start, crashes := 0, 0
 	for round := 0; start < len(scns); round++ {
+		if crashes >= maxCrashes {
+			for i := start; i < len(scns); i++ {
+				res[i] = scnResult{Skip: true}
+			}
+			return
+		}
 		next, ok := runChild(c, dir, in, filepath.Join(dir, fmt.Sprintf("obs_%d.jsonl", round)), len(scns), start, res)
 		if !ok {
 			return
@@ -208,6 +220,14 @@ func runChunk(c *hx.Ctx, tag string, scns []scenario, res []scnResult) {
 			}
 		}
 		if h < 0 {
+			for i := start; i < next && i < len(scns); i++ {
+				if res[i].Crash != "" {
+					crashes++
+					if strings.Contains(res[i].Crash, "did not finish within") {
+						crashes += 9
+					}
+				}
+			}
 			start = next
 			continue
 		}
@@ -304,15 +324,23 @@ func runChild(c *hx.Ctx, dir, in, outf string, n, start int, res []scnResult) (i
 		// runtime then comes from goroutines an earlier scenario left behind (the Mux's reader, a closer):
 		// it is an observation about the implementation and is attributed to the scenario that finished last
 		if last >= start && (strings.Contains(errText, "panic:") || strings.Contains(errText, "fatal error:")) {
-			res[last] = scnResult{Crash: fmt.Sprintf("%v (after the scenario's calls had returned): %s", werr, tail(errText, 3000))}
+			res[last] = scnResult{Crash: fmt.Sprintf("%v (after the scenario's calls had returned): %s", werr, clip(errText))}
 			return last + 1, true
 		}
 		// anything else is a problem of the machinery, not an observation
 		c.HarnessError("child failed outside a scenario (next: %d of %d): %v\n%s", bad, n, werr, tail(errText, 2000))
 		return 0, false
 	}
-	res[bad] = scnResult{Crash: fmt.Sprintf("%v: %s", werr, tail(errText, 3000))}
+	res[bad] = scnResult{Crash: fmt.Sprintf("%v: %s", werr, clip(errText))}
 	return bad + 1, true
+}
+
+// clip keeps the beginning (the panic message, the watchdog's line) and the end of a long text
+func clip(s string) string {
+	if len(s) > 4000 {
+		return s[:2500] + "\n[...]\n" + s[len(s)-1500:]
+	}
+	return s
 }
 
 func tail(s string, n int) string {
